@@ -2,6 +2,7 @@ package main
 
 import (
 	"fmt"
+	"sync"
 	"go/constant"
 	"go/token"
 	"go/types"
@@ -316,6 +317,7 @@ type Enc struct {
 	assertBlk   []*ssa.BasicBlock
 	curBlk      *ssa.BasicBlock
 	relMemo     map[*ssa.BasicBlock]map[*ssa.BasicBlock]bool
+	relMu       sync.Mutex
 	topAtRefs   map[string][]Term
 	jsonSeen    map[string]bool
 	boxTypes    map[string]types.Type
@@ -366,6 +368,8 @@ func (c *Enc) assert(t Term) {
 // relevantBlocks: blocks of the top-level function from which control can reach blk along
 // forward edges (blk itself included). blk == nil means "function exit".
 func (c *Enc) relevantBlocks(blk *ssa.BasicBlock) map[*ssa.BasicBlock]bool {
+	c.relMu.Lock()
+	defer c.relMu.Unlock()
 	if c.relMemo == nil {
 		c.relMemo = map[*ssa.BasicBlock]map[*ssa.BasicBlock]bool{}
 	}
